@@ -19,7 +19,9 @@
 (* records lacking the field of a non-streaming verb, ...) the set has more *)
 (* elements or Allowed is a predicate that demands only what the reference  *)
 (* and the property statement say (bystander fields keep name, value text   *)
-(* and relative order).                                                     *)
+(* and relative order).  A configuration [v |-> "chain", o |-> name] is two  *)
+(* fixed verbs joined by `then` (ChainParts): the observed output must be an *)
+(* allowed outcome of the second verb on some allowed outcome of the first.  *)
 (***************************************************************************)
 EXTENDS Records, TLC
 
@@ -44,11 +46,6 @@ Pos(r, k)         == CHOOSE i \in 1..Len(r) : r[i][1] = k                 \* Has
 Splice(r, n, fs)  == SubSeq(r, 1, n - 1) \o fs \o SubSeq(r, n + 1, Len(r))
 
 Perms(n) == {g \in [1..n -> 1..n] : \A i, j \in 1..n : i # j => g[i] # g[j]}
-\* out is an interleaving of A and B (each in its own order)
-IsMerge(out, A, B) ==
-  /\ Len(out) = Len(A) + Len(B)
-  /\ \E I \in SUBSET (1..Len(out)) :
-        SelIdx(out, LAMBDA i : i \in I) = A /\ SelIdx(out, LAMBDA i : i \notin I) = B
 
 \* ---------------------------------------------------------------- text
 RECURSIVE Concat(_)
